@@ -240,6 +240,10 @@ func init() {
 			strings.Contains(m.Observed, "non-writable non-configurable value changed") ||
 			strings.Contains(m.Observed, "twice")
 	}))
+	engine.RegisterSignature("c07-gopn-non-object", func(m *engine.Mismatch) bool {
+		return m.Aux["part"] == "objectfn" && m.Aux["fn"] == "getOwnPropertyNames" && m.Expected == "TypeError" &&
+			m.Observed == "ok:{Array|ext=1|length=d:0:100}"
+	})
 	engine.RegisterSignature("c07-descriptor-value-read-last", func(m *engine.Mismatch) bool {
 		v, ok := m.Aux["alt:value-last"]
 		return ok && m.Aux["tag"] == "descshape" && m.Observed == v && m.Observed != m.Expected
